@@ -5,7 +5,7 @@ from checks.c15 import Server_client
 PROP = "C14"
 GENS = ["gen_protocol"]
 CONE = ["Server/Protocol.v", "Server/ConcModel.v", "Server/ConcProofs.v", "Server/ConcAtomic.v", "Props/C14.v", "Gen/Protocol.v"]
-THEOREMS = ["C14_protocol_ranked", "C14_no_deadlock", "C14_reads_and_commits_atomic", "C14_guarded_exclusive", "C14_read_is_snapshot", "C14_entry_atomic"]
+THEOREMS = ["C14_protocol_ranked", "C14_no_deadlock", "C14_reads_and_commits_atomic", "C14_guarded_exclusive", "C14_read_is_snapshot", "C14_confirm_consumes_first", "C14_entry_atomic"]
 
 # the lock order of each handler / task as extracted (Acq sequence), expressed in trace points
 EXPECT_ORDER = {
@@ -79,8 +79,19 @@ def stress(res, wd, delays, clients, per_client, rnd, tag):
                 else:
                     m, p = "GetTankanCandidates", {"input": "あ"}
                 t0 = time.time()
+                twin = None
+                if m == "UpdateFrequency" and r.random() < 0.5:
+                    # the same confirmation a second time, at the same moment, on another connection: one of the two must find the session gone
+                    def again(p=p):
+                        st2, r2 = Server_client(s).call("UpdateFrequency", p, timeout=20)
+                        with lock:
+                            log.append((t0, time.time(), "UpdateFrequency", p, st2, r2))
+                    twin = threading.Thread(target=again)
+                    twin.start()
                 st, res_ = c.call(m, p, timeout=20)
                 t1 = time.time()
+                if twin:
+                    twin.join(30)
                 if st == "ok" and m in ("GetCandidates", "GetProperCandidates"):
                     sess.append(res_["session_id"])
                 with lock:
@@ -104,10 +115,11 @@ def stress(res, wd, delays, clients, per_client, rnd, tag):
             return stats
         # ---- sequential explainability, as invariants of every sequential order:
         # (1) the learned counts add up to the acknowledged confirmations whose candidate has an independent word
-        confirms = sum(1 for (_, _, m, _, st, _) in log if m == "UpdateFrequency" and st == "ok")
+        confirms = len({p["session_id"] for (_, _, m, p, st, _) in log if m == "UpdateFrequency" and st == "ok"})
         total = sum(f[2] for f in d["frequencies"])
         if total > confirms:
-            res.violation(f"{confirms} confirmations were sent but the counts add up to {total}", {"kind": "counts", "delays": delays})
+            res.violation(f"{confirms} distinct sessions were confirmed (some of them twice at the same moment) but the counts add up to {total}: a session was consumed twice",
+                          {"kind": "counts", "delays": delays, "scenario": tag})
         # (2) every acknowledged registration is in the user dictionary exactly once
         regs = [(p["reading"], p["word"]) for (_, _, m, p, st, _) in log if m == "RegisterWord" and st == "ok"]
         for rd, w in set(regs):
